@@ -99,12 +99,12 @@ impl FileContents {
     }
 
     pub fn show_region(&self, start: usize, end: usize) -> String {
-        let end = min(end, self.data.len().saturating_sub(1));
+        let end = min(end, self.data.len());
         let start = min(start, end);
         let filename = self.filename(start);
         let (begin_line_no, begin_loc, _) = self.line_number_and_bounds(start);
         let (end_line_no, begin_last_line, end_loc) = self.line_number_and_bounds(end);
-        let end_loc = min(end_loc, self.data.len().saturating_sub(1));
+        let end_loc = min(end_loc, self.data.len());
 
         debug!("range is {}-{}", begin_loc, end_loc);
 
@@ -126,7 +126,7 @@ impl FileContents {
             result.push_str(&format!("{:>4} | {}\n", number, line));
             result.push_str(&format!("     | {}{}\n",
                 " ".repeat(this_start),
-                "^".repeat(this_end - this_start)));
+                "^".repeat(this_end.saturating_sub(this_start))));
             number += 1;
         }
         result
